@@ -529,8 +529,15 @@ func isDeferredClosure(parent, g *ssa.Function) bool {
 }
 
 func c08R4(h H) {
-	h.r.Rule("R4", "cleanup-flag discipline: in startWithListenerFds and Instance.Restart a deferred function undoes work when a captured error variable is non-nil; every return that reports an error must therefore return that variable itself or lie behind its non-nil test (a shadowed error skips the undo code)", 6)
-	cleanupFlagRule(h, "R4", []string{"startWithListenerFds", "(*Instance).Restart"})
+	h.r.Rule("R4", "failed attempts are undone (E10 lifecycle traces): for every step of startWithListenerFds that can fail (directive execution, MakeServers, each first-startup and startup callback, the server start) the instance is gone from the instance list when the error is returned, and present after a successful start; for every failure of Instance.Restart up to the start of the new instance the restart-failed callbacks run and the old instance is returned with the error", 2)
+	t := lifecycleTraces(h)
+	var pos token.Pos
+	if f := h.p.Func("", "startWithListenerFds"); f != nil {
+		pos = f.Pos()
+	}
+	n := sprintf("%d cases evaluated", t.n)
+	h.r.Check(t.cleanup == "" && t.start == "" && t.other+t.oStart == "", "R4", "casket.startWithListenerFds/failed-instance-leaves-list", pos, "a start that fails at any step returns the error of that step and leaves no trace of the instance in the instance list (a shadowed error variable would skip the undo code)", n, t.cleanup, t.start, t.other+t.oStart)
+	h.r.Check(t.restart == "" && t.other+t.oRestart == "", "R4", "casket.(*Instance).Restart/failure-handled", pos, "a reload that fails before the new instance is up reports the failure to the restart-failed callbacks and keeps the old instance", n, t.restart, t.other+t.oRestart)
 }
 
 func cleanupFlagRule(h H, rule string, names []string) {
@@ -630,7 +637,7 @@ func inLoopHeaderOf(fn *ssa.Function, b *ssa.BasicBlock) bool { return false }
 
 func runC16(r *Report, p *Program) {
 	h := H{r, p}
-	r.Rule("R1", "who-may-invoke each callback list: OnFirstStartup only in startWithListenerFds under !IsUpgrade() and restartFds == nil; OnStartup only there, and startServers only after that loop is exhausted; OnRestart only in Restart, before startWithListenerFds; OnRestartFailed only in Restart's deferred function under err != nil or a recovered panic; OnShutdown only in Restart (after Stop, on the success path) and in ShutdownCallbacks; OnFinalShutdown only in ShutdownCallbacks; ShutdownCallbacks is called only from allShutdownCallbacks, which is called only inside the sync.Once of executeShutdownCallbacks", 10)
+	r.Rule("R1", "who-may-invoke each callback list: the six lists are invoked (or handed to a helper that runs them) only within startWithListenerFds, Instance.Restart, Instance.ShutdownCallbacks and the functions these were split into — when, in which order and under which conditions is decided by the traces of R6; ShutdownCallbacks is called only from allShutdownCallbacks, which is called only inside the sync.Once of executeShutdownCallbacks", 8)
 	type site struct {
 		fn   *ssa.Function
 		in   ssa.Instruction
@@ -645,108 +652,47 @@ func runC16(r *Report, p *Program) {
 			}
 		}
 	}
-	allowed := map[string][]string{
-		"OnFirstStartup":  {"casket.startWithListenerFds"},
-		"OnStartup":       {"casket.startWithListenerFds"},
-		"OnRestart":       {"(*casket.Instance).Restart"},
-		"OnRestartFailed": {"(*casket.Instance).Restart$1"},
-		"OnShutdown":      {"(*casket.Instance).Restart", "(*casket.Instance).ShutdownCallbacks"},
-		"OnFinalShutdown": {"(*casket.Instance).ShutdownCallbacks"},
+	// who may invoke: only the lifecycle functions and what they were split into (order and guards are decided by
+	// the traces of R6)
+	scope := map[*ssa.Function]bool{}
+	for _, name := range []string{"startWithListenerFds", "(*Instance).Restart", "(*Instance).ShutdownCallbacks"} {
+		if f := h.fn("R1", "", name); f != nil {
+			for _, g := range withHelpers(f, 4) {
+				scope[g] = true
+			}
+		}
 	}
 	count := map[string]int{}
 	for _, s := range sites {
-		name := shortFunc(s.fn)
-		ok := containsStr(allowed[s.list], name)
 		count[s.list]++
-		r.Check(ok, "R1", s.list+"/invoked-in:"+name, s.in.Pos(), s.list+" callbacks are invoked only at their designated site(s): "+strings.Join(allowed[s.list], ", "))
+		r.Check(scope[s.fn], "R1", s.list+"/invoked-within-lifecycle:"+shortFunc(s.fn), s.in.Pos(), s.list+" callbacks are invoked only by startWithListenerFds, Instance.Restart, Instance.ShutdownCallbacks and their helpers")
+	}
+	// a list handed to a helper that runs it counts as invoked at that call
+	for _, fn := range p.ModFuncs() {
+		for _, l := range lists {
+			allInstrs(fn, func(in ssa.Instruction) {
+				c := callOf(in)
+				if c == nil || c.StaticCallee() == nil || fnPkg(c.StaticCallee()) == nil || !isModPkg(fnPkg(c.StaticCallee()).Path()) {
+					return
+				}
+				for _, a := range c.Args {
+					if p2, root := fieldPath(a); p2 == l && strings.HasSuffix(strings.TrimPrefix(root.Type().String(), "*"), "casket.Instance") {
+						count[l]++
+						r.Check(scope[fn], "R1", l+"/handed-on-within-lifecycle:"+shortFunc(fn), in.Pos(), l+" callbacks are handed to a helper only by the lifecycle functions")
+					}
+				}
+			})
+		}
 	}
 	for _, l := range lists {
 		if count[l] == 0 {
 			r.Unresolve("R1", "no invocation site of "+l+" found")
 		}
 	}
-	swl := h.fn("R1", "", "startWithListenerFds")
-	if swl != nil {
-		for _, c := range callbackListCalls(swl, "OnFirstStartup") {
-			upg, rst := false, false
-			for _, g := range guardAtoms(swl, nil, c) {
-				if call, ok := g.Cond.(*ssa.Call); ok && strings.HasSuffix(calleeName(&call.Call), "casket.IsUpgrade") && !g.Pos {
-					upg = true
-				}
-				if x, nilWhenTrue, ok := nilCmp(g.Cond); ok && nilWhenTrue == g.Pos {
-					if pr, ok := x.(*ssa.Parameter); ok && strings.Contains(pr.Type().String(), "restartTriple") {
-						rst = true
-					}
-				}
-			}
-			r.Check(upg && rst, "R1", "OnFirstStartup/guards", c.Pos(), "first-startup callbacks run only when this is neither an upgrade nor a restart (restartFds == nil)", sprintf("!IsUpgrade:%v restartFds==nil:%v", upg, rst))
-		}
-		// startServers only after OnStartup loop exhausted
-		if hd, _ := loopOverField(swl, "OnStartup"); hd != nil {
-			for _, c := range callsTo(swl, "casket.startServers") {
-				r.Check(onlyVia(swl, c, map[edge]bool{{hd, 1}: true}), "R1", "OnStartup/before-startServers", c.Pos(), "the servers are started only after every startup callback has run")
-			}
-		} else {
-			r.Unresolve("R1", "startWithListenerFds: loop over OnStartup not found")
-		}
-		if len(callsTo(swl, "casket.startServers")) == 0 {
-			r.Unresolve("R1", "startWithListenerFds: startServers call not found")
-		}
-	}
 	rs := h.fn("R1", "", "(*Instance).Restart")
 	var startNew []ssa.Instruction
 	if rs != nil {
 		startNew = callsTo(rs, "casket.startWithListenerFds")
-		if hd, _ := loopOverField(rs, "OnRestart"); hd != nil {
-			for _, c := range startNew {
-				r.Check(onlyVia(rs, c, map[edge]bool{{hd, 1}: true}), "R1", "OnRestart/before-new-instance", c.Pos(), "the new instance is started only after every restart callback of the old one has run")
-			}
-		} else {
-			r.Unresolve("R1", "Restart: loop over OnRestart not found")
-		}
-		// OnShutdown in Restart: after Stop, on the success path
-		okEdges := nilEdges(rs, true, func(v ssa.Value) bool {
-			return derives(v, func(x ssa.Value) bool { return isResultOf(x, 0, modPath+".startWithListenerFds") }, flowOpts{}) || isErrLoadAfter(v, startNew)
-		})
-		stops := callsTo(rs, "casket.Instance).Stop")
-		for _, c := range callbackListCalls(rs, "OnShutdown") {
-			r.Check(mustPass(rs, c, anyOf(stops)) && mustPass(rs, c, anyOf(startNew)), "R1", "OnShutdown/in-Restart-after-stop", c.Pos(), "the old instance's shutdown callbacks run after the new instance started and the old one was stopped")
-			_ = okEdges
-		}
-		// OnRestartFailed guards
-		for _, g := range rs.AnonFuncs {
-			for _, c := range callbackListCalls(g, "OnRestartFailed") {
-				ga := dominatingGuards(g, nil, c)
-				// condition is `err != nil || r != nil`: lowered to two Ifs; require that with both "false" outcomes the call is unreachable
-				errFalse := nilEdges(g, true, func(v ssa.Value) bool {
-					ld, ok := v.(*ssa.UnOp)
-					if !ok {
-						return false
-					}
-					_, isFV := ld.X.(*ssa.FreeVar)
-					return isFV && strings.HasSuffix(ld.Type().String(), "error")
-				})
-				recTrue := nilEdges(g, false, func(v ssa.Value) bool { return isResultOf(v, 0, "builtin.recover") })
-				errTrue := nilEdges(g, false, func(v ssa.Value) bool {
-					ld, ok := v.(*ssa.UnOp)
-					if !ok {
-						return false
-					}
-					_, isFV := ld.X.(*ssa.FreeVar)
-					return isFV && strings.HasSuffix(ld.Type().String(), "error")
-				})
-				allowedE := map[edge]bool{}
-				for e := range recTrue {
-					allowedE[e] = true
-				}
-				for e := range errTrue {
-					allowedE[e] = true
-				}
-				_ = errFalse
-				_ = ga
-				r.Check(onlyVia(g, c, allowedE), "R1", "OnRestartFailed/guards", c.Pos(), "restart-failed callbacks run only when the restart returned an error or panicked")
-			}
-		}
 	}
 	// ShutdownCallbacks callers
 	nCallers := 0
@@ -841,8 +787,29 @@ func runC16(r *Report, p *Program) {
 			"once the new instance is serving, Restart returns it with a nil error (anything else runs OnRestartFailed and hands the caller a stopped instance)", "offending return: "+bad)
 	}
 
-	r.Rule("R5", "no callbacks of an instance that never went live: startWithListenerFds appends the instance to the instance list up front and a deferred function splices it out when the captured error variable is non-nil; every error return reports through that variable (or lies behind its non-nil test), so a failed start or reload leaves no entry whose OnShutdown/OnFinalShutdown the process shutdown would run", 3)
-	cleanupFlagRule(h, "R5", []string{"startWithListenerFds"})
+	r.Rule("R6", "lifecycle traces (E10): startWithListenerFds, Instance.Restart and Instance.ShutdownCallbacks are evaluated with oracle callbacks in all six lists and oracles for directive execution, MakeServers, startServers, the start of the new instance and the stop of the old servers, each succeeding or failing as the case says (32 + 8 + 4 cases); the observed trace must be the specified one: directives, MakeServers, first-startup callbacks (only when neither upgrading nor restarting), startup callbacks, then the servers — stopping at the first failure, which is returned; Restart runs the restart callbacks, starts the new instance, and only then stops the old servers and runs the old shutdown callbacks, returning the new instance with a nil error whatever those report, while any failure up to the start of the new instance runs the restart-failed callbacks and returns the old instance with the error; ShutdownCallbacks runs every shutdown and final-shutdown callback in order and reports their errors", 4)
+	{
+		t := lifecycleTraces(h)
+		var pos token.Pos
+		if f := p.Func("", "startWithListenerFds"); f != nil {
+			pos = f.Pos()
+		}
+		n := sprintf("%d cases evaluated", t.n)
+		r.Check(t.start == "" && t.other+t.oStart == "", "R6", "casket.startWithListenerFds/trace", pos, "callbacks and server start happen in the specified order and stop at the first failure", n, t.start, t.other+t.oStart)
+		r.Check(t.restart == "" && t.other+t.oRestart == "", "R6", "casket.(*Instance).Restart/trace", pos, "restart callbacks, then the new instance, then the old instance's stop and shutdown callbacks; failures before the new instance is up run the restart-failed callbacks and keep the old instance", n, t.restart, t.other+t.oRestart)
+		r.Check(t.afterUp == "" && t.other+t.oRestart == "", "R6", "casket.(*Instance).Restart/after-new-instance-up", pos, "once the new instance is up the reload is a success: the new instance is returned with a nil error and no restart-failed callback runs", n, t.afterUp, t.other+t.oRestart)
+		r.Check(t.shut == "" && t.other+t.oShut == "", "R6", "casket.(*Instance).ShutdownCallbacks/trace", pos, "every shutdown and final-shutdown callback runs once, in order, errors are collected", n, t.shut, t.other+t.oShut)
+	}
+
+	r.Rule("R5", "no callbacks of an instance that never went live (E10 lifecycle traces): whichever step of startWithListenerFds fails — directive execution, MakeServers, a first-startup or startup callback, the server start — the instance is gone from the instance list when the error is returned, so process shutdown never runs OnShutdown/OnFinalShutdown of an instance that never went live", 1)
+	{
+		t := lifecycleTraces(h)
+		var pos token.Pos
+		if f := p.Func("", "startWithListenerFds"); f != nil {
+			pos = f.Pos()
+		}
+		r.Check(t.cleanup == "" && t.other+t.oStart == "", "R5", "casket.startWithListenerFds/failed-instance-leaves-list", pos, "a start that fails at any step leaves no entry in the instance list whose shutdown callbacks the process shutdown would run", sprintf("%d cases evaluated", t.n), t.cleanup, t.other+t.oStart)
+	}
 }
 
 // errNonNilAfter: the edge(s) taken when the error result of the given call is non-nil (the failure path of that call).
@@ -1068,15 +1035,14 @@ func runC07(r *Report, p *Program) {
 		}
 	}
 
-	r.Rule("R5", "the new instance's startup callbacks (which open log files etc.) are complete before startServers lets it accept connections", 1)
-	if swl := h.fn("R5", "", "startWithListenerFds"); swl != nil {
-		if hd, _ := loopOverField(swl, "OnStartup"); hd != nil {
-			for _, c := range callsTo(swl, "casket.startServers") {
-				r.Check(onlyVia(swl, c, map[edge]bool{{hd, 1}: true}), "R5", "casket.startWithListenerFds/startup-before-serving", c.Pos(), "requests reach the new configuration only after its startup callbacks ran")
-			}
-		} else {
-			r.Unresolve("R5", "loop over OnStartup not found")
+	r.Rule("R5", "the new instance's startup callbacks (which open log files etc.) are complete before startServers lets it accept connections: in every evaluated trace of startWithListenerFds (E10 lifecycle traces: 32 cases of upgrade/restart/failing step) the servers are started after the last startup callback, and not at all when a callback fails", 1)
+	{
+		t := lifecycleTraces(h)
+		var pos token.Pos
+		if f := p.Func("", "startWithListenerFds"); f != nil {
+			pos = f.Pos()
 		}
+		r.Check(t.start == "" && t.other+t.oStart == "", "R5", "casket.startWithListenerFds/startup-before-serving", pos, "requests reach the new configuration only after its startup callbacks ran", sprintf("%d cases evaluated", t.n), t.start, t.other+t.oStart)
 	}
 }
 
